@@ -168,3 +168,9 @@ fn k_in_3_field_read_reports_field_stamp() {
     std::mem::forget(z);
     std::mem::forget(ing);
 }
+
+/// Register memo slot `mi` of the input struct for memo type `M` (what `NewMemoIngredientIndices::create` does
+/// when a tracked function over this struct is registered).
+pub(crate) fn register_memo_type<M: crate::table::memo::Memo>(ing: &mut IngredientImpl<KI>, mi: crate::zalsa::MemoIngredientIndex) {
+    Arc::get_mut(&mut ing.memo_table_types).unwrap().set(mi, crate::table::memo::MemoEntryType::of::<M>());
+}
